@@ -45,6 +45,12 @@ CLAIMED = {
             "verification-before-use order in the frame and stream entry points and every Result<_, VerifyError> in "
             "the encoder modules is an obligation decided on the MIR (dominating `?`-propagated checks). Hangs and "
             "numeric behaviour of in-range values are not decided.", "4/C17"),
+    "C09": ("GUARD: forward def-use tracking of candidate subframes with admission-idiom recognition and backward "
+            "slices of the guard operands",
+            "Every non-verbatim candidate reaches the subframe chooser's result only through a `<` between its real "
+            "BitRepr::count_bits and a bound derived from the verbatim baseline; the stereo assignment changes only "
+            "under a `<` of real bit-count sums. A necessary condition for 'never larger than verbatim'; the "
+            "saturating cost tables are not decided.", "4/C09"),
 }
 
 NA = {
